@@ -5,6 +5,9 @@ import (
 	"gogenvet/rules"
 )
 
+// properties whose rules consult the call graph (rules/*.go: c.CallGraph)
+var usesCallGraph = map[string]bool{"C06": true, "C08": true, "C15": true, "C16": true}
+
 func thoroughImpl(vdir, prop, repo string, p rules.Prop, seed int, obs *[]fw.Obligation) map[string]any {
 	extra := map[string]any{}
 	// (a) 32-bit configuration
@@ -26,7 +29,29 @@ func thoroughImpl(vdir, prop, repo string, p rules.Prop, seed int, obs *[]fw.Obl
 		}
 		*obs = append(*obs, o)
 	}
-	extra["configurations"] = []string{"host GOARCH", "GOARCH=386"}
+	configs := []string{"host GOARCH", "GOARCH=386"}
+	// (c) the reachability rules must give the same verdicts on the coarser CHA call graph
+	if usesCallGraph[prop] {
+		rcha := runOnce(prop, "thorough", repo, "", true, p)
+		base := map[string]fw.Status{}
+		for _, b := range *obs {
+			base[b.Key] = b.Status
+		}
+		ndiff := 0
+		for _, o := range rcha.obs {
+			if st, ok := base[o.Key]; ok && st == o.Status {
+				continue
+			}
+			ndiff++
+			o.Detail = "verdict under the CHA call graph (" + string(o.Status) + ") differs from the verdict under VTA: the reachability rule depends on call-graph precision; " + o.Detail
+			o.Key += "@callgraph=CHA"
+			o.Status = fw.Undecided
+			*obs = append(*obs, o)
+		}
+		configs = append(configs, "call graph CHA instead of VTA")
+		extra["cha_crosscheck"] = map[string]any{"obligations": len(rcha.obs), "differences": ndiff}
+	}
+	extra["configurations"] = configs
 	// (d) sensitivity suite: stored single-edit mutations of the current tree must be reported
 	results := runSelftest(vdir, repo, prop, 4, "")
 	counts := map[string]int{}
